@@ -14,7 +14,7 @@ def _report(rep, f, sym, slot, cases, it, name, rule='R-WINDOW', which=('R-WINDO
     for facts, term in cases:
         a = W.simplify_under(term, facts)
         b = W.simplify_under(ref, facts)
-        if a != b:
+        if a != b and not W.equal_under(a, b, facts):
             bad = (a, b)
             break
     if 'R-WINDOW' not in which:
